@@ -16,6 +16,56 @@ func init() {
 	extraScenarios["C11/block"] = blockScenarios
 	extraGroups["C12"] = []exploreGroup{{"end", 3, 4}}
 	extraScenarios["C12/end"] = endScenarios
+	extraGroups["C14"] = []exploreGroup{{"flush", 2, 3}}
+	extraScenarios["C14/flush"] = flushScenarios
+}
+
+// flushScenarios (C14): a flush must not change what OTHER connections observe afterwards beyond
+// the keys being gone - in particular a connection blocked on a list of the flushed database is
+// still served by a later push (a seeded change of wave 4 replaced the wait table in the flush).
+func flushScenarios(tier string) []*Scenario {
+	var out []*Scenario
+	T := func(cmds ...[]string) [][]string { return cmds }
+	W := func(args ...string) [][]string { return [][]string{args} }
+	waiters := []struct {
+		name string
+		cmd  []string
+	}{{"BLPOP", []string{"BLPOP", "k", "0"}}, {"BLMOVE", []string{"BLMOVE", "k", "m", "LEFT", "RIGHT", "0"}}, {"BRPOP2", []string{"BRPOP", "j", "k", "0"}}}
+	flushes := []struct {
+		name string
+		cmds [][]string
+	}{
+		{"FLUSHDB", T([]string{"FLUSHDB"})},
+		{"FLUSHALL", T([]string{"FLUSHALL"})},
+		{"db1:FLUSHALL", T([]string{"SELECT", "1"}, []string{"FLUSHALL"})},
+		{"EXEC(FLUSHDB)", T([]string{"MULTI"}, []string{"FLUSHDB"}, []string{"EXEC"})},
+		{"EXEC(SET,FLUSHALL)", T([]string{"MULTI"}, []string{"SET", "s", "1"}, []string{"FLUSHALL"}, []string{"EXEC"})},
+		{"db1:FLUSHDB", T([]string{"SELECT", "1"}, []string{"FLUSHDB"})}, // another database: nothing changes
+	}
+	for wi, w := range waiters {
+		for fi, f := range flushes {
+			if tier != "thorough" && wi > 0 && fi > 1 {
+				continue
+			}
+			for _, db := range []string{"0", "1"} {
+				if db == "1" && (wi > 0 || tier != "thorough" && fi > 2) {
+					continue
+				}
+				wt, pt := W(w.cmd...), T([]string{"RPUSH", "k", "x"}, []string{"LLEN", "k"})
+				if db != "0" {
+					wt = T([]string{"SELECT", db}, w.cmd)
+					pt = T([]string{"SELECT", db}, []string{"RPUSH", "k", "x"}, []string{"LLEN", "k"})
+				}
+				// the flush completes before the push starts ...
+				ls := &linScenario{name: fmt.Sprintf("flush/db%s/%s|%s|RPUSH", db, w.name, f.name), setup: [][]string{{"SET", "s", "0"}, {"RPUSH", "other", "o"}}, threads: [][][]string{wt, f.cmds, pt}, phases: []int{0, 1, 2}, allowPending: true}
+				out = append(out, ls.scenario())
+				// ... and races with it
+				ls = &linScenario{name: fmt.Sprintf("flush/db%s/%s|%s||RPUSH", db, w.name, f.name), setup: [][]string{{"SET", "s", "0"}}, threads: [][][]string{wt, f.cmds, pt}, phases: []int{0, 1, 1}, allowPending: true}
+				out = append(out, ls.scenario())
+			}
+		}
+	}
+	return out
 }
 
 func blockScenarios(tier string) []*Scenario {
@@ -65,6 +115,9 @@ func blockScenarios(tier string) []*Scenario {
 	add(&linScenario{name: "block/W,W2|EXEC(RPUSH,LPOP)", threads: [][][]string{W("BLPOP", "k", "0"), W("BLPOP", "k", "0"), T([]string{"MULTI"}, []string{"RPUSH", "k", "a"}, []string{"LPOP", "k"}, []string{"RPUSH", "k", "b"}, []string{"EXEC"})}, phases: []int{0, 1, 2}, fifo: []int{0, 1}})
 	add(&linScenario{name: "block/W|SORT-STORE-onto", setup: [][]string{{"RPUSH", "j", "b", "a"}}, threads: [][][]string{W("BLPOP", "k", "0"), W("SORT", "j", "ALPHA", "STORE", "k")}, phases: []int{0, 1}})
 	add(&linScenario{name: "block/W|FLUSHDB||RPUSH", threads: [][][]string{W("BLPOP", "k", "0"), W("FLUSHDB"), W("RPUSH", "k", "a")}, phases: []int{0, 1, 1}})
+	for _, ls := range moreBlockScenarios(tier) {
+		add(ls)
+	}
 	return out
 }
 
@@ -154,6 +207,29 @@ func timeoutOracle(us int64) func(ls *linScenario, x *Exec, per [][]*Call) [][2]
 	}
 }
 
+// moreBlockScenarios: added after seeded changes were missed (see DESIGN.md 10.6)
+func moreBlockScenarios(tier string) []*linScenario {
+	W := func(args ...string) [][]string { return [][]string{args} }
+	T := func(cmds ...[]string) [][]string { return cmds }
+	var out []*linScenario
+	// a waiter on two keys is served through the first one; the same EXEC (or a second pusher) then pushes
+	// to the other key, where a single-key waiter queues behind it
+	out = append(out,
+		&linScenario{name: "block/W1(k1,k2),W2(k2)|EXEC(LPUSHk1,LPUSHk2)", threads: [][][]string{W("BLPOP", "k1", "k2", "0"), W("BLPOP", "k2", "0"), T([]string{"MULTI"}, []string{"LPUSH", "k1", "a"}, []string{"LPUSH", "k2", "b"}, []string{"EXEC"})}, phases: []int{0, 1, 2}, allowPending: true, noLin: true},
+		&linScenario{name: "block/W1(k1,k2),W2(k2)|LPUSHk1||LPUSHk2", threads: [][][]string{W("BLPOP", "k1", "k2", "0"), W("BLPOP", "k2", "0"), W("LPUSH", "k1", "a"), W("LPUSH", "k2", "b")}, phases: []int{0, 1, 2, 2}, allowPending: true, noLin: true},
+		&linScenario{name: "block/W1(k1,k2,k3),W2(k3),W3(k2)|EXEC(LPUSHk1,LPUSHk3,LPUSHk2)", threads: [][][]string{W("BRPOP", "k1", "k2", "k3", "0"), W("BLPOP", "k3", "0"), W("BLMOVE", "k2", "m", "LEFT", "LEFT", "0"), T([]string{"MULTI"}, []string{"LPUSH", "k1", "a"}, []string{"LPUSH", "k3", "c"}, []string{"LPUSH", "k2", "b"}, []string{"EXEC"})}, phases: []int{0, 1, 1, 2}, allowPending: true, noLin: true, boundDelta: -1}, // four threads: one preemption less
+	)
+	// a woken waiter whose element was taken again waits on at the FRONT of the queue: the next push,
+	// made after everything has come to rest, goes to it and not to the client that blocked later
+	spur := T([]string{"MULTI"}, []string{"RPUSH", "k", "stolen"}, []string{"LPOP", "k"}, []string{"EXEC"})
+	out = append(out,
+		&linScenario{name: "block/W,W2|EXEC(RPUSH,LPOP)|then-RPUSH", threads: [][][]string{W("BLPOP", "k", "0"), W("BLPOP", "k", "0"), spur, W("RPUSH", "k", "first")}, phases: []int{0, 1, 2, 3}, allowPending: true, noLin: true, fifo: []int{0, 1}, boundDelta: -1},
+		&linScenario{name: "block/W(j,k),W2|EXEC(RPUSH,LPOP)|then-RPUSH", threads: [][][]string{W("BRPOP", "j", "k", "0"), W("BLMOVE", "k", "m", "LEFT", "RIGHT", "0"), spur, W("RPUSH", "k", "first")}, phases: []int{0, 1, 2, 3}, allowPending: true, noLin: true, fifo: []int{0, 1}, boundDelta: -1},
+		&linScenario{name: "block/W,W2,W3|EXEC(RPUSH,LPOP)|then-RPUSH2", threads: [][][]string{W("BLPOP", "k", "0"), W("BLPOP", "k", "0"), W("BLPOP", "k", "0"), spur, W("RPUSH", "k", "first", "second")}, phases: []int{0, 1, 2, 3, 4}, allowPending: true, noLin: true, fifo: []int{0, 1, 2}, boundDelta: -2},
+	)
+	return out
+}
+
 func endScenarios(tier string) []*Scenario {
 	var out []*Scenario
 	add := func(ls *linScenario) {
@@ -212,5 +288,47 @@ func endScenarios(tier string) []*Scenario {
 		extra: expectOracle([][]string{{"nil", "-*"}, {":1"}, {":1"}, {":1"}, {`"a"`}})})
 	// (e) inside MULTI blocking commands never block
 	add(&linScenario{name: "multi/blocking-commands-do-not-block", threads: [][][]string{T([]string{"MULTI"}, []string{"BLPOP", "k", "0"}, []string{"BRPOP", "k", "0"}, []string{"BLMOVE", "k", "m", "LEFT", "LEFT", "0"}, []string{"BRPOPLPUSH", "k", "m", "0"}, []string{"BLMPOP", "0", "1", "k", "LEFT"}, []string{"EXEC"}, []string{"PING"})}})
+	// the same with the database changed before or inside the transaction, with and without a timeout
+	// (a seeded change of wave 4 made the commands queued after a SELECT block for real)
+	five := func(t string) [][]string {
+		return [][]string{{"BLPOP", "k", t}, {"BRPOP", "k", "k2", t}, {"BLMOVE", "k", "m", "LEFT", "LEFT", t}, {"BRPOPLPUSH", "k", "m", t}, {"BLMPOP", t, "2", "k", "k2", "LEFT"}}
+	}
+	for _, t := range []string{"0", "0.2"} {
+		for _, v := range []struct {
+			name        string
+			before, mid [][]string
+		}{
+			{"select-inside", nil, [][]string{{"SELECT", "1"}}},
+			{"select-before", [][]string{{"SELECT", "1"}}, nil},
+			{"select-inside-same", nil, [][]string{{"SELECT", "0"}}},
+			{"select-there-and-back", nil, [][]string{{"SELECT", "1"}, {"SELECT", "0"}}},
+			{"select-before-and-inside", [][]string{{"SELECT", "2"}}, [][]string{{"SELECT", "1"}}},
+		} {
+			cmds := append([][]string{}, v.before...)
+			cmds = append(cmds, []string{"MULTI"})
+			cmds = append(cmds, v.mid...)
+			cmds = append(cmds, five(t)...)
+			cmds = append(cmds, []string{"EXEC"}, []string{"PING"})
+			add(&linScenario{name: "multi/" + v.name + "/t" + t, threads: [][][]string{T(cmds...), W("SET", "other", "1")}, phases: []int{0, 1}, extra: instantOracle})
+		}
+	}
+	return out
+}
+
+// instantOracle: no command of the scenario waits - every call returns, and at the virtual time at
+// which it was issued.
+func instantOracle(ls *linScenario, x *Exec, per [][]*Call) [][2]string {
+	var out [][2]string
+	for i := range ls.threads {
+		if len(per[i]) < len(ls.threads[i]) {
+			out = append(out, [2]string{fmt.Sprintf("blocked-inside-transaction:c%d", i+1), fmt.Sprintf("connection %d: command %d (%v) never returned", i+1, len(per[i]), ls.threads[i][len(per[i])])})
+			continue
+		}
+		for j, c := range per[i] {
+			if c.TRet != c.TInv {
+				out = append(out, [2]string{fmt.Sprintf("waited-inside-transaction:c%d.%d", i+1, j), fmt.Sprintf("connection %d command %d (%v) took %d ms of virtual time", i+1, j, c.Args, c.TRet-c.TInv)})
+			}
+		}
+	}
 	return out
 }
